@@ -33,6 +33,9 @@ class Contract:
         self.ensures_raise = dict(kw.pop("ensures_raise", {}))  # ExcName -> [post expr] on that exceptional exit
         self.modifies = list(kw.pop("modifies", []))
         self.loops = {k: (v if isinstance(v, LoopSpec) else LoopSpec(**v)) for k, v in kw.pop("loops", {}).items()}
+        self.comp_loops = {k: (v if isinstance(v, LoopSpec) else LoopSpec(**v)) for k, v in kw.pop("comp_loops", {}).items()}
+        # comp_loops: list comprehension ordinal -> loop contract; the comprehension is then executed as the loop
+        #   _comp<k> = []; for <target> in <iter>: _comp<k>.append(<elt>)      (needed when <elt> has side effects)
         self.yields = list(kw.pop("yields", []))          # each yielded value `it` satisfies these
         self.decreases = kw.pop("decreases", None)
         self.inline = kw.pop("inline", False)             # callers execute the real body instead of the contract
